@@ -288,6 +288,10 @@ class Falsy:
         return 'Falsy%r' % (self.parts,)
 
 
+class StrSub(str):
+    """a name that is an instance of a subclass of str (equal to, and hashing like, the plain string)"""
+
+
 class Dflt:
     """a default object handed to one call; it must come back by identity from that call and from no other"""
 
@@ -639,6 +643,42 @@ def execute(program, ctx, mode):
                         'subscribers': 'subscriptions'}[kind] if objs is None else 'queryMultiAdapter'
         if kind == 'lookup1' and len(specs) != 1:
             kind = 'lookup'
+        # the call style rotates too: positional arguments, keyword arguments, name / default left out where that means
+        # the same, a str subclass instance as the name
+        style = (askno[0] // 4) % 4
+        if style == 3 and isinstance(nm, str):
+            nm = StrSub(nm)
+        if style == 1:
+            if kind == 'lookup':
+                return kind, reg.lookup(required=specs_arg, provided=pi, name=nm, default=default)
+            if kind == 'lookup1':
+                return kind, reg.lookup1(required=specs[0], provided=pi, name=nm, default=default)
+            if kind == 'lookupAll':
+                return kind, sorted(reg.lookupAll(required=specs_arg, provided=pi), key=lambda kv: kv[0])
+            if kind == 'names':
+                return kind, sorted(reg.names(required=specs_arg, provided=pi))
+            if kind == 'subscriptions':
+                return kind, list(reg.subscriptions(required=specs_arg, provided=pi))
+            if kind == 'queryAdapter':
+                return kind, reg.queryAdapter(object=objs[0], provided=pi, name=nm, default=default)
+            if kind == 'adapter_hook':
+                return kind, reg.adapter_hook(provided=pi, object=objs[0], name=nm, default=default)
+            if kind == 'queryMultiAdapter':
+                return kind, reg.queryMultiAdapter(objects=objs, provided=pi, name=nm, default=default)
+            if kind == 'subscribers':
+                return kind, reg.subscribers(objects=objs, provided=pi)
+        if style == 2 and default is None:
+            tail = () if nm == '' else (nm,)          # name '' and default None are the defaults: leave them out
+            if kind == 'lookup':
+                return kind, reg.lookup(specs_arg, pi, *tail)
+            if kind == 'lookup1':
+                return kind, reg.lookup1(specs[0], pi, *tail)
+            if kind == 'queryAdapter':
+                return kind, reg.queryAdapter(objs[0], pi, *tail)
+            if kind == 'adapter_hook':
+                return kind, reg.adapter_hook(pi, objs[0], *tail)
+            if kind == 'queryMultiAdapter':
+                return kind, reg.queryMultiAdapter(objs, pi, *tail)
         if kind == 'lookup':
             return kind, reg.lookup(specs_arg, pi, nm, default)
         if kind == 'lookup1':
